@@ -11,7 +11,7 @@
 namespace sc {
 using namespace verif;
 
-struct P { double x, y; };
+struct P { double x = 0, y = 0; };
 inline bool operator==(const P &a, const P &b) { return a.x == b.x && a.y == b.y; }
 typedef std::vector<P> Poly;            // convex, library orientation (cross of successive vertices > 0)
 
